@@ -7,8 +7,8 @@ import (
 	"errors"
 	"fmt"
 	"io"
+	"net"
 	"net/http"
-	"net/http/httptest"
 	"os"
 	"path/filepath"
 	"regexp"
@@ -55,7 +55,8 @@ type c19Pair struct {
 	remote *lk.Lake // operations go through the service; Root is an independent direct handle on the served lake
 	served *lk.Lake // direct view of the served lake (state extraction only)
 	conn   *client.Connection
-	srv    *httptest.Server
+	srv    *http.Server
+	ln     net.Listener
 }
 
 func newC19Pair(ctx context.Context) (*c19Pair, error) {
@@ -78,8 +79,17 @@ func newC19Pair(ctx context.Context) (*c19Pair, error) {
 		p.Close()
 		return nil, err
 	}
-	p.srv = httptest.NewServer(core)
-	p.conn = client.NewConnectionTo(p.srv.URL)
+	// (not httptest.Server: its Close calls http.DefaultTransport.CloseIdleConnections, which
+	// breaks requests in flight on the pairs other workers are driving)
+	ln, err := net.Listen("tcp", "127.0.0.1:0")
+	if err != nil {
+		p.Close()
+		return nil, err
+	}
+	p.ln = ln
+	p.srv = &http.Server{Handler: core}
+	go p.srv.Serve(ln)
+	p.conn = client.NewConnectionTo("http://" + ln.Addr().String())
 	rootR, err := lake.Open(ctx, eng, nil, uriR)
 	if err != nil {
 		p.Close()
@@ -268,6 +278,32 @@ func c19OpClass(op lk.Op) string {
 	return s
 }
 
+// c19Ambiguous: op selects objects by canonical position and some selected object has a twin
+// with the same key range, count and size.
+func c19Ambiguous(ctx context.Context, l *lk.Lake, op lk.Op) bool {
+	if len(op.Idx) == 0 || op.Kind == "revert" {
+		return false
+	}
+	objs, err := l.Objects(ctx, op.Pool, op.Branch)
+	if err != nil {
+		return false
+	}
+	same := func(a, b lk.ObjInfo) bool {
+		return a.Min == b.Min && a.Max == b.Max && a.Count == b.Count && a.Size == b.Size
+	}
+	for _, i := range op.Idx {
+		if i >= len(objs) {
+			continue
+		}
+		for j := range objs {
+			if j != i && same(objs[i], objs[j]) {
+				return true
+			}
+		}
+	}
+	return false
+}
+
 type c19Outcome struct {
 	skip bool
 	res  string
@@ -301,6 +337,13 @@ func c19RunHistory(ctx context.Context, ops []lk.Op, stats *c19Stats) (string, m
 	var trail []string
 	for i, op := range ops {
 		trail = append(trail, op.String())
+		if c19Ambiguous(ctx, p.direct, op) {
+			// the operation names objects by position and two candidate objects are
+			// indistinguishable but for their ids (twin loads): which one it hits differs
+			// between the lakes without either being wrong
+			stats.add("operations_skipped_because_the_object_choice_is_ambiguous", 1)
+			continue
+		}
 		d := c19Apply(ctx, p.direct, op)
 		r := c19Apply(ctx, p.remote, op)
 		stats.add("operations", 1)
